@@ -2,6 +2,7 @@ import DW.Props.C05
 import DW.Props.C09
 import DW.Props.C10
 import DW.Props.C18
+import DW.Lemmas.Uses
 
 /-!
 # C06 — a skipped field is invisible to exactly the traits of its skip group
@@ -167,4 +168,31 @@ theorem C06_no_demand_eq (k : Nat) (d : Data) : eqBody k d = (d.relevantIdx .eq)
   unfold eqBody
   exact map_iterFields d .eq (Stmt.assertEq k)
 
+/-- **A skipped field is never mentioned.**  The body generated for trait `t` mentions the binding
+(`__field_x` / `__other_field_x`), the `Default::default()` call or the `__AssertEq<FieldType>` assertion of field
+`i` of variant `k` only if that field is not skipped for `t` -- for every item, attribute, bound list,
+discriminant strategy and feature configuration.  A field that is not mentioned raises no trait obligation: the
+type of a skipped field need not implement the traits it is skipped for (C06), `Eq` is never demanded of a
+skipped field (C17), and the only obligations an expansion raises are `FieldType: Trait` for non-skipped fields
+(C02: "the item's field types support the requested traits" is all the expansion needs). -/
+theorem C06_skipped_never_mentioned (c : Cfg) (it : Item) (dw : DeriveWhere) (t : Trait) :
+    ∀ m ∈ (generateBody c it dw t).toList, m.body.usesBad (it.fieldRelevant t) = false := by
+  apply uses_generateBody
+  intro x hx t' ht' p hp
+  have hv := Item.indexed_mem it x hx
+  have hmem : p.1 ∈ x.2.relevantIdx t' := by
+    rw [← Data.iterFields_fst]; exact List.mem_map_of_mem hp
+  have heq : x.2.relevantIdx t' = x.2.relevantIdx t := by
+    rcases ht' with rfl | ⟨rfl, rfl⟩ | ⟨rfl, rfl⟩
+    · rfl
+    · exact relevantIdx_uniform x.2 .ord .partialOrd (by simp [cmpTraits]) (by simp [cmpTraits])
+    · exact relevantIdx_uniform x.2 .partialOrd .ord (by simp [cmpTraits]) (by simp [cmpTraits])
+  rw [heq] at hmem
+  simp [Item.fieldRelevant, hv, hmem]
+
+/-- The traversal is not vacuous: a body that mentions a skipped field is flagged. -/
+example : (Expr.call (.traitFn .eq) [.var (.selfField 0 1), .var (.otherField 0 1)]).usesBad (fun _ i => i != 1) = true := by
+  decide
+
 end DW
+
